@@ -12,6 +12,7 @@ import ast
 from ..cfg import cfg_of, literals
 from ..dataflow import Defs, atoms, calls_in, provenance, stmt_of
 from ..index import AnalysisError, call_name, dotted, enclosing, head, norm, walk_body
+from ..pattern import facts_matching, find, has_fact, local_defined_as, pmatch
 from ..rules import COMPOUND, kw, node_calls, own_calls, prov_at, reaching
 from ..witness import W
 
@@ -42,40 +43,88 @@ def run(chk):
     r4_pacemaker(chk, repo)
 
 
+def _roles(it):
+    """Discover the locals of Plugin.iter by what they are, not by what they are called."""
+    r = {}
+    mg0 = [c for c in calls_in(it.node) if (call_name(c) or "").endswith("Chunk.merge") and c.args]
+    for c in mg0:
+        b = pmatch("[L_in[L_d] for L_d in L_deps]", c.args[0])
+        if b:
+            r["IN"] = b["L_in"]
+    splits = [n for n in walk_body(it.node) if isinstance(n, ast.Assign) and isinstance(n.value, ast.Call) and isinstance(n.value.func, ast.Attribute) and n.value.func.attr == "split"]
+    if "IN" not in r:
+        # fall back: the dict whose items receive a part of a split of the input buffer
+        for n in splits:
+            if pmatch("self.input_buffer[L_d]", n.value.func.value) is not None and isinstance(n.targets[0], ast.Tuple):
+                for t in n.targets[0].elts:
+                    b = pmatch("L_in[L_d]", t)
+                    if b:
+                        r["IN"] = b["L_in"]
+    for n in splits:
+        recv = n.value.func.value
+        if pmatch("self.input_buffer[L_d]", recv) is not None:
+            r["first_split"] = n
+            t = kw(n.value, "t")
+            if isinstance(t, ast.Name):
+                tce = find(it.node, f"{t.id} = self.input_buffer[L_pm].end")
+                if tce:
+                    r["TCE"], r["PM"] = t.id, tce[0][1]["L_pm"]
+        elif "IN" in r and pmatch(f"{r['IN']}[L_d]", recv) is not None:
+            r["trim_split"] = n
+    if "IN" in r:
+        ae = find(it.node, f"L_ae = [L_x.end for L_x in {r['IN']}.values()]")
+        if ae:
+            r["AE"] = ae[0][1]["L_ae"]
+    mg = [n for n in walk_body(it.node) if isinstance(n, ast.Assign) and isinstance(n.targets[0], ast.Name) and isinstance(n.value, ast.DictComp) and any((call_name(c) or "").endswith("Chunk.merge") for c in calls_in(n.value))]
+    if mg:
+        r["MERGED"] = mg[0].targets[0].id
+        r["merge_assign"] = mg[0]
+    return r
+
+
+def _effective_save_when(fnode, within=None):
+    """Name of the local that holds max(save_when over outputs) / self.save_when, or None."""
+    a = [(n, b) for n, b in find(fnode, "L_sw = max([int(L_s) for L_s in self.save_when.values()])") if within is None or within(n)]
+    if not a:
+        return None
+    name = a[0][1]["L_sw"]
+    plain = [n for n, b in find(fnode, f"{name} = self.save_when") if within is None or within(n)]
+    return name if plain else None
+
+
 def r1_guards(chk, repo):
     chk.describe("C08.R1", "input rows that cannot be delivered raise an error instead of being dropped")
     it = repo.func("Plugin.iter", PLUGIN)
     cfg = cfg_of(it)
+    R = _roles(it)
+    chk.need({"TCE", "PM"} <= set(R), f"C08: could not identify the roles of Plugin.iter's locals (found {sorted(R)})")
     hs = [h for h in walk_body(it.node) if isinstance(h, ast.ExceptHandler) and "IterDone" in norm(h.type or ast.Constant(None))]
     chk.need(len(hs) == 1, "C08.R1: end-of-run handler (except IterDone) of Plugin.iter not found")
     h = hs[0]
     inh = lambda st: enclosing(st, (ast.ExceptHandler,)) is h
     raises = [n for n in cfg.stmt_nodes() if isinstance(n.stmt, ast.Raise) and inh(n.stmt)]
-    # (a1) every iterator is asked once more
-    a1 = [n for n in raises if any(t.startswith("self._fetch_chunk(") and p for t, p in cfg.guard_facts(n))]
+    a1 = [n for n in raises if has_fact(cfg, n, "self._fetch_chunk(L_d, iters)", True)]
     ok = bool(a1) and all(enclosing(n.stmt, (ast.For,)) is not None and "iters" in norm(enclosing(n.stmt, (ast.For,)).iter) for n in a1)
     chk.check(ok, "C08.R1", it, h, "at the end of the run the inputs are not all checked for undelivered chunks", site_text="Plugin.iter: every input re-fetched at the end; raise if one still delivers", site={"function": it.qualname, "guard": "last-fetch"})
-    # (a2) left-over buffer
+    SW = _effective_save_when(it.node, inh)
+    chk.check(SW is not None, "C08.R1", it, None, "effective save policy of the plugin is not the maximum over its outputs", site_text="Plugin.iter: save_when = max over outputs")
     a2 = []
     for n in raises:
-        facts = cfg.guard_facts(n)
-        if any("save_when > strax.SaveWhen.EXPLICIT" == t and p for t, p in facts) and any("len(buffer)" in t and p for t, p in facts):
+        if SW and has_fact(cfg, n, f"{SW} > strax.SaveWhen.EXPLICIT", True) and has_fact(cfg, n, "len(L_b)", True):
             a2.append(n)
     chk.check(bool(a2), "C08.R1", it, h, "rows left in the input buffer at the end of the run are dropped silently for plugins whose results are saved", site_text="Plugin.iter: raise on left-over buffer if save_when > EXPLICIT", site={"function": it.qualname, "guard": "leftover"})
     for n in a2:
         lp = enclosing(n.stmt, (ast.For,))
         chk.check(lp is not None and "self.input_buffer.items()" in norm(lp.iter), "C08.R1", it, n.stmt, "left-over check does not cover every input buffer", site_text="Plugin.iter: left-over check over all input buffers", nontrivial=False)
-    d = Defs(it.node)
-    swd = [norm(v) for v, s, how in d.defs.get("save_when", []) if v is not None and enclosing(s, (ast.ExceptHandler,)) is h]
-    chk.check(any("max(" in v and "self.save_when.values()" in v for v in swd) and any(v == "self.save_when" for v in swd), "C08.R1", it, None, "effective save policy of the plugin is not the maximum over its outputs", site_text="Plugin.iter: save_when = max over outputs")
-    # (d) trim loop
-    wl = [n for n in walk_body(it.node) if isinstance(n, ast.While) and "max_passes_left" in norm(n.test)]
+    # (d) trim loop = the while loop that contains the trimming split
+    wl = [n for n in walk_body(it.node) if isinstance(n, ast.While) and "trim_split" in R and any(x is R["trim_split"] for x in ast.walk(n))]
     chk.check(len(wl) == 1 and wl[0].orelse and any(isinstance(x, ast.Raise) for x in wl[0].orelse), "C08.R1", it, wl[0] if wl else None, "trim loop gives up silently after its passes: inputs with different ends would be computed", site_text="Plugin.iter: trim loop `else: raise`", site={"function": it.qualname, "guard": "trim-else"})
     if wl:
         brk = [x for x in ast.walk(wl[0]) if isinstance(x, ast.Break)]
-        ok = all(any(t == "len(set(all_ends)) <= 1" and p for t, p in cfg.guard_facts(cfg.node_of(b))) for b in brk) and bool(brk)
+        ok = bool(brk) and "AE" in R and all(has_fact(cfg, cfg.node_of(b), f"len(set({R['AE']})) <= 1", True) for b in brk)
         chk.check(ok, "C08.R1", it, wl[0], "trim loop is left although the inputs do not end at one time", site_text="Plugin.iter: trim loop left only when all inputs end together")
-        dec = [x for x in ast.walk(wl[0]) if isinstance(x, ast.AugAssign) and norm(x.target) == "max_passes_left" and isinstance(x.op, ast.Sub)]
+        cnt = pmatch("L_n > 0", wl[0].test)
+        dec = [x for x in ast.walk(wl[0]) if cnt and isinstance(x, ast.AugAssign) and norm(x.target) == cnt["L_n"] and isinstance(x.op, ast.Sub)]
         chk.check(bool(dec), "C08.R1", it, wl[0], "trim loop has no progress counter", site_text="Plugin.iter: passes counted down", nontrivial=False)
     # (b) _fetch_chunk
     fc = repo.func("Plugin._fetch_chunk", PLUGIN)
@@ -87,21 +136,18 @@ def r1_guards(chk, repo):
         if ("check_end_not_before is not None", True) in facts and ("self.input_buffer[d].end < check_end_not_before", True) in facts:
             okb = True
     chk.check(okb, "C08.R1", fc, None, "a dependency that ends before the time the other inputs require is accepted silently", site_text="_fetch_chunk: raise if exhausted before check_end_not_before", site={"function": fc.qualname, "guard": "premature-end"})
-    calls = [c for c in calls_in(it.node) if call_name(c) == "self._fetch_chunk" and enclosing(c, (ast.While,)) is not None and "this_chunk_end" in norm(enclosing(c, (ast.While,)).test)]
-    chk.check(bool(calls) and all(kw(c, "check_end_not_before") is not None and norm(kw(c, "check_end_not_before")) == "this_chunk_end" for c in calls), "C08.R1", it, None, "other inputs are fetched without requiring that they reach the pacemaker's end", site_text="Plugin.iter: _fetch_chunk(..., check_end_not_before=this_chunk_end)")
+    calls = [c for c in calls_in(it.node) if call_name(c) == "self._fetch_chunk" and enclosing(c, (ast.While,)) is not None and R["TCE"] in norm(enclosing(c, (ast.While,)).test)]
+    chk.check(bool(calls) and all(kw(c, "check_end_not_before") is not None and norm(kw(c, "check_end_not_before")) == R["TCE"] for c in calls), "C08.R1", it, None, "other inputs are fetched without requiring that they reach the pacemaker's end", site_text="Plugin.iter: _fetch_chunk(..., check_end_not_before=<end of this call>)")
     # (c) do_compute
     dc = repo.func("Plugin.do_compute", PLUGIN)
     dcfg = cfg_of(dc)
-    rc = []
-    for n in dcfg.stmt_nodes():
-        if isinstance(n.stmt, ast.Raise):
-            facts = dcfg.guard_facts(n)
-            if ("len(set(tranges.values())) != 1", True) in facts and ("save_when <= strax.SaveWhen.EXPLICIT", False) in facts:
-                rc.append(n)
+    trd = find(dc.node, "L_tr = {L_k: (L_v.start, L_v.end) for L_k, L_v in kwargs.items()}")
+    chk.check(bool(trd), "C08.R1", dc, None, "time ranges compared are not (start, end) of each input", site_text="do_compute: ranges = {k: (v.start, v.end)}")
+    TR = trd[0][1]["L_tr"] if trd else None
+    SW2 = _effective_save_when(dc.node)
+    rc = [n for n in dcfg.stmt_nodes() if isinstance(n.stmt, ast.Raise) and TR and SW2 and has_fact(dcfg, n, f"len(set({TR}.values())) != 1", True) and has_fact(dcfg, n, f"{SW2} <= strax.SaveWhen.EXPLICIT", False)]
     chk.check(bool(rc), "C08.R1", dc, None, "inputs covering different time ranges are computed without error for plugins whose results are saved", site_text="do_compute: raise on inconsistent time ranges if save_when > EXPLICIT", site={"function": dc.qualname, "guard": "time-range"})
-    tr = Defs(dc.node).single("tranges")
-    chk.check(tr is not None and "(v.start, v.end)" in norm(tr), "C08.R1", dc, None, "time ranges compared are not (start, end) of each input", site_text="do_compute: tranges = {k: (v.start, v.end)}")
-    ri = [n for n in dcfg.stmt_nodes() if isinstance(n.stmt, ast.Raise) and ("isinstance(v, strax.Chunk)", False) in dcfg.guard_facts(n)]
+    ri = [n for n in dcfg.stmt_nodes() if isinstance(n.stmt, ast.Raise) and has_fact(dcfg, n, "isinstance(L_v, strax.Chunk)", False)]
     chk.check(bool(ri), "C08.R1", dc, None, "non-chunk inputs are accepted by do_compute", site_text="do_compute: raise on non-Chunk input", nontrivial=False)
 
 
@@ -121,60 +167,67 @@ def r2_merge(chk, repo):
             if it and "dependencies_by_kind().items()" in it:
                 ok = True
         chk.check(ok, "C08.R2", f, None, f"{q} does not merge same-kind inputs with Chunk.merge over dependencies_by_kind()", site_text=f"{q}: Chunk.merge per data kind", site={"function": q})
-    # everything computed comes from the merged inputs
     it = repo.func("Plugin.iter", PLUGIN)
+    R = _roles(it)
     subs = [c for c in calls_in(it.node) if (call_name(c) or "").endswith(".submit") or call_name(c) == "self._iter_compute"]
-    chk.check(bool(subs) and all(any(k.arg is None and norm(k.value) == "inputs_merged" for k in c.keywords) for c in subs), "C08.R2", it, None, "compute is not called with the merged inputs", site_text="Plugin.iter: compute(**inputs_merged)")
+    chk.check(bool(subs) and "MERGED" in R and all(any(k.arg is None and norm(k.value) == R["MERGED"] for k in c.keywords) for c in subs), "C08.R2", it, None, "compute is not called with the merged inputs", site_text="Plugin.iter: compute(**<merged inputs>)")
+    if "merge_assign" in R and "IN" in R:
+        chk.check(f"{R['IN']}[" in norm(R["merge_assign"].value), "C08.R2", it, R["merge_assign"], "merged inputs are not built from the trimmed inputs of this call", site_text="Plugin.iter: merge over the inputs of this call", nontrivial=False)
 
 
 def r3_splits(chk, repo):
     chk.describe("C08.R3", "every split in Plugin.iter may move earlier, gives its left part to this call and puts its right part back in front of the buffer; fetches append to the buffer")
     it = repo.func("Plugin.iter", PLUGIN)
+    R = _roles(it)
     sp = [n for n in walk_body(it.node) if isinstance(n, ast.Assign) and isinstance(n.value, ast.Call) and isinstance(n.value.func, ast.Attribute) and n.value.func.attr == "split"]
     chk.floor("C08.R3", "split statements in Plugin.iter", len(sp), 2)
+    IN = R.get("IN")
     for s in sp:
         c = s.value
         a = kw(c, "allow_early_split")
         chk.check(isinstance(a, ast.Constant) and a.value is True, "C08.R3", it, s, "input split without allow_early_split: a row straddling another input's boundary raises CannotSplit", site_text=f"Plugin.iter: `{head(s, 50)}` allow_early_split=True")
         t = kw(c, "t")
-        chk.check(t is not None and norm(t) == "this_chunk_end", "C08.R3", it, s, "input is not split at the end of this compute call", site_text="split(t=this_chunk_end)")
+        chk.check(t is not None and norm(t) == R.get("TCE"), "C08.R3", it, s, "input is not split at the end of this compute call", site_text="split(t=<end of this call>)")
         tg = s.targets[0]
-        ok = isinstance(tg, ast.Tuple) and len(tg.elts) == 2 and norm(tg.elts[0]).startswith("inputs[")
+        ok = isinstance(tg, ast.Tuple) and len(tg.elts) == 2 and IN is not None and norm(tg.elts[0]).startswith(f"{IN}[")
         chk.check(ok, "C08.R3", it, s, "left part of the split does not go to the inputs of this call", site_text="left part -> inputs[d]")
         if isinstance(tg, ast.Tuple) and len(tg.elts) == 2:
             right = norm(tg.elts[1])
             if right.startswith("self.input_buffer["):
                 chk.ok("C08.R3", "right part -> self.input_buffer[d]")
             else:
-                # must be concatenated back in front of the buffer
                 back = [n for n in walk_body(it.node) if isinstance(n, ast.Assign) and norm(n.targets[0]).startswith("self.input_buffer[") and isinstance(n.value, ast.Call) and (call_name(n.value) or "").endswith("Chunk.concatenate")]
                 okb = any(norm(b.value.args[0]).startswith(f"[{right}, self.input_buffer[") and enclosing(b, (ast.For,)) is enclosing(s, (ast.For,)) for b in back)
-                chk.check(okb, "C08.R3", it, s, f"right part `{right}` of the split is dropped or re-buffered behind newer data", site_text=f"right part `{right}` re-buffered in front of the buffer", site={"function": it.qualname, "construct": "re-buffer"})
+                chk.check(okb, "C08.R3", it, s, f"right part `{right}` of the split is dropped or re-buffered behind newer data", site_text="right part re-buffered in front of the buffer", site={"function": it.qualname, "construct": "re-buffer"})
     fc = repo.func("Plugin._fetch_chunk", PLUGIN)
     st = [n for n in walk_body(fc.node) if isinstance(n, ast.Assign) and norm(n.targets[0]) == "self.input_buffer[d]"]
     ok = len(st) == 1 and isinstance(st[0].value, ast.Call) and (call_name(st[0].value) or "").endswith("Chunk.concatenate") and norm(st[0].value.args[0]) == "[self.input_buffer[d], next(iters[d])]"
     chk.check(ok, "C08.R3", fc, st[0] if st else None, "a fetched chunk replaces (or is put before) what is still buffered", site_text="_fetch_chunk: buffer = concatenate([buffer, next(iters[d])])", site={"function": fc.qualname, "construct": "append"})
     rt = [n for n in walk_body(fc.node) if isinstance(n, ast.Return)]
     chk.check({norm(r.value) for r in rt} == {"True", "False"}, "C08.R3", fc, None, "_fetch_chunk no longer reports whether a chunk was fetched", site_text="_fetch_chunk: True on success, False when exhausted", nontrivial=False)
-    # buffers start empty for every dependency
-    ini = [n for n in walk_body(it.node) if isinstance(n, ast.Assign) and norm(n.targets[0]) == "self.input_buffer"]
-    chk.check(bool(ini) and "for d in self.depends_on" in norm(ini[0].value), "C08.R3", it, None, "input buffers are not initialised per dependency", site_text="Plugin.iter: input_buffer = {d: None for d in depends_on}", nontrivial=False)
+    ini = [n for n, b in find(it.node, "self.input_buffer = {L_d: None for L_d in self.depends_on}")]
+    chk.check(bool(ini), "C08.R3", it, None, "input buffers are not initialised per dependency", site_text="Plugin.iter: input_buffer = {d: None for d in depends_on}", nontrivial=False)
 
 
 def r4_pacemaker(chk, repo):
     chk.describe("C08.R4", "the pacemaker is the input that ends first; each call ends where the pacemaker's buffer ends and the other inputs are fetched up to there")
     it = repo.func("Plugin.iter", PLUGIN)
     cfg = cfg_of(it)
-    pm = [n for n in cfg.stmt_nodes() if isinstance(n.stmt, ast.Assign) and norm(n.stmt.targets[0]) == "pacemaker" and norm(n.stmt.value) == "d"]
-    chk.check(bool(pm) and all(("self.input_buffer[d].end < _end", True) in cfg.guard_facts(n) for n in pm), "C08.R4", it, None, "pacemaker is not chosen as the dependency whose first chunk ends earliest", site_text="Plugin.iter: pacemaker = argmin end of the first chunks")
-    upd = [n for n in walk_body(it.node) if isinstance(n, ast.Assign) and norm(n.targets[0]) == "_end" and norm(n.value) == "self.input_buffer[d].end"]
-    chk.check(bool(upd), "C08.R4", it, None, "running minimum of the first-chunk ends is not updated", site_text="Plugin.iter: _end updated with the minimum", nontrivial=False)
-    te = [n for n in walk_body(it.node) if isinstance(n, ast.Assign) and norm(n.targets[0]) == "this_chunk_end"]
-    chk.check(any(norm(n.value) == "self.input_buffer[pacemaker].end" for n in te), "C08.R4", it, None, "a call does not end at the end of the pacemaker's buffered chunk", site_text="Plugin.iter: this_chunk_end = input_buffer[pacemaker].end")
-    chk.check(any(norm(n.value) == "min(all_ends + [this_chunk_end])" for n in te), "C08.R4", it, None, "after early splits the call end is not lowered to the earliest input end", site_text="Plugin.iter: this_chunk_end = min(all ends)")
-    wl = [n for n in walk_body(it.node) if isinstance(n, ast.While) and "this_chunk_end" in norm(n.test) and "input_buffer" in norm(n.test)]
-    chk.check(len(wl) == 1 and norm(wl[0].test) == "self.input_buffer[d] is None or self.input_buffer[d].end < this_chunk_end", "C08.R4", it, wl[0] if wl else None, "other inputs are not fetched until they reach the end of this call", site_text="Plugin.iter: fetch while buffer.end < this_chunk_end")
-    done = [n for n in cfg.stmt_nodes() if isinstance(n.stmt, ast.Raise) and "IterDone" in norm(n.stmt.exc) and any(t == "self._fetch_chunk(pacemaker, iters)" and not p for t, p in cfg.guard_facts(n))]
+    R = _roles(it)
+    PM, TCE = R.get("PM"), R.get("TCE")
+    pm = [n for n in cfg.stmt_nodes() if isinstance(n.stmt, ast.Assign) and norm(n.stmt.targets[0]) == PM and isinstance(n.stmt.value, ast.Name)]
+    okp = False
+    for n in pm:
+        for e, pol, g, b in facts_matching(cfg, n, f"self.input_buffer[{norm(n.stmt.value)}].end < L_min", True):
+            if find(it.node, f"{b['L_min']} = self.input_buffer[{norm(n.stmt.value)}].end") and find(it.node, f"{b['L_min']} = float('inf')"):
+                okp = True
+    chk.check(okp, "C08.R4", it, None, "pacemaker is not chosen as the dependency whose first chunk ends earliest", site_text="Plugin.iter: pacemaker = argmin end of the first chunks (running minimum from +inf)")
+    te = [n for n in walk_body(it.node) if isinstance(n, ast.Assign) and norm(n.targets[0]) == TCE]
+    chk.check(any(norm(n.value) == f"self.input_buffer[{PM}].end" for n in te), "C08.R4", it, None, "a call does not end at the end of the pacemaker's buffered chunk", site_text="Plugin.iter: end of this call = input_buffer[pacemaker].end")
+    chk.check("AE" in R and any(norm(n.value) == f"min({R['AE']} + [{TCE}])" for n in te), "C08.R4", it, None, "after early splits the call end is not lowered to the earliest input end", site_text="Plugin.iter: end of this call = min(all ends)")
+    wl = [n for n in walk_body(it.node) if isinstance(n, ast.While) and pmatch(f"self.input_buffer[L_d] is None or self.input_buffer[L_d].end < {TCE}", n.test) is not None]
+    chk.check(len(wl) == 1, "C08.R4", it, None, "other inputs are not fetched until they reach the end of this call", site_text="Plugin.iter: fetch while buffer.end < end of this call")
+    done = [n for n in cfg.stmt_nodes() if isinstance(n.stmt, ast.Raise) and "IterDone" in norm(n.stmt.exc) and has_fact(cfg, n, f"self._fetch_chunk({PM}, iters)", False)]
     chk.check(bool(done), "C08.R4", it, None, "the run does not end when the pacemaker is exhausted", site_text="Plugin.iter: IterDone when the pacemaker delivers nothing more")
     fin = [n for n in walk_body(it.node) if isinstance(n, ast.Try) and n.finalbody and any(call_name(c) == "self.cleanup" for s in n.finalbody for c in calls_in(s))]
     chk.check(bool(fin), "C08.R4", it, None, "plugin cleanup is not run on every exit", site_text="Plugin.iter: cleanup in finally", nontrivial=False)
